@@ -11,7 +11,7 @@ macro "phase_clause" k:ident hp:ident : tactic =>
 theorem inv_work_dfach (c : Cfg) (ar aq : Nat) (s : S) (h : Inv c ar aq s) (hrun : s.running = true)
     (hp : s.phase = .DownFilterAfterChooseHost) : Inv c ar aq (finishPhase c s) := by
   apply finish_inv c ar aq s h hrun
-  · intro hh; rw [hp] at hh; cases hh
+  · rw [hp]; decide
   · intro hh; rw [hp] at hh; cases hh
   · intro _ _
     have hcl := inv_not_cleaned h hrun
@@ -33,27 +33,27 @@ theorem inv_work_dfach (c : Cfg) (ar aq : Nat) (s : S) (h : Inv c ar aq s) (hrun
 /-- `Base` is insensitive to the flags and timers -/
 theorem base_flags (c : Cfg) (ar aq : Nat) (s : S) (b : Base c ar aq s) (hcl : s.cleaned = false)
     (rq pt gt nt ur : Bool) (rr : Reason) (fn : List PoolFail) (hoff : c.oneway = true → pt = false ∧ gt = false)
-    (gg : Nat := s.gtGen) :
+    (gg : Nat := s.gtGen) (go : Bool := s.gtObj) :
     Base c ar aq { s with reqSent := rq, perTry := pt, global := gt, notify := nt, upReset := ur, resetReason := rr, failNext := fn,
-                          gtGen := gg } := by
+                          gtGen := gg, gtObj := go } := by
   obtain ⟨k1, k2, k4, k9, k10, k11, k12, k13, k14, k20, k21, k22, k31⟩ := b
   refine ⟨k1, k2, k4, k9, k10, k11, k12, ?_, k14, k20, ?_, k22, k31⟩
   · intro hh; simp [hcl] at hh
   · exact hoff
 
 /-- the state after the pool refused the first attempt (flags `rq pt gt` = reqSent/perTry/global afterwards) -/
-def drhFail (s : S) (f : PoolFail) (rq pt gt : Bool) (gg : Nat) : S :=
+def drhFail (s : S) (f : PoolFail) (rq pt gt : Bool) (gg : Nat) (go : Bool) : S :=
   { s with failNext := s.failNext.drop 1, streams := [(⟨false, false, false, false⟩ : Stream)],
            trace := s.trace ++ [Ev.uf 0 f], upReset := true, resetReason := failReason f, notify := true,
-           reqSent := rq, perTry := pt, global := gt, gtGen := gg }
+           reqSent := rq, perTry := pt, global := gt, gtGen := gg, gtObj := go }
 
 /-- the state after the pool admitted the first attempt -/
-def drhOk (c : Cfg) (s : S) (eos rq pt gt : Bool) (gg : Nat) : S :=
+def drhOk (c : Cfg) (s : S) (eos rq pt gt : Bool) (gg : Nat) (go : Bool) : S :=
   { s with failNext := s.failNext.drop 1, streams := [(⟨true, true, true, !c.oneway⟩ : Stream)],
            requests := if !c.oneway then Gen.Resource.increase c.maxRequests s.requests else s.requests,
            upActive := if !c.oneway then s.upActive + 1 else s.upActive,
            up := some (some 0), trace := (s.trace ++ [Ev.un 0]) ++ [Ev.uh 0 eos],
-           reqSent := rq, perTry := pt, global := gt, gtGen := gg }
+           reqSent := rq, perTry := pt, global := gt, gtGen := gg, gtObj := go }
 
 /-- phase `DownRecvHeader`: the first `ConnectionPool.NewStream` -/
 theorem inv_work_drh (c : Cfg) (ar aq : Nat) (s : S) (h : Inv c ar aq s) (hrun : s.running = true)
@@ -97,6 +97,7 @@ theorem inv_work_drh (c : Cfg) (ar aq : Nat) (s : S) (h : Inv c ar aq s) (hrun :
         · have := base_flags c ar aq s hb hcl true (s.perTry || (s.up.isSome && !c.oneway && c.tryTimeout))
             (s.global || (s.up.isSome && !c.oneway)) s.notify s.upReset s.resetReason s.failNext
             (fun ho => by simp [ho, hpt, hgt]) (if (s.up.isSome && !c.oneway) = true then s.gtGen + 1 else s.gtGen)
+            (s.gtObj || (s.up.isSome && !c.oneway))
           exact this
       apply finish_plain c ar aq s1 hb1
       · rcases hs1 with rfl | rfl <;> simpa [onUpstreamRequestSent] using hrun
@@ -125,11 +126,11 @@ theorem inv_work_drh (c : Cfg) (ar aq : Nat) (s : S) (h : Inv c ar aq s) (hrun :
     cases hout : poolOutcome c s with
     | some f =>
       -- the pool refused: `OnFailure` records an upstream reset
-      have key : ∀ (rq pt gt : Bool) (gg : Nat), (c.oneway = true → pt = false ∧ gt = false) →
+      have key : ∀ (rq pt gt : Bool) (gg : Nat) (go : Bool), (c.oneway = true → pt = false ∧ gt = false) →
           (rq = true → c.oneway = false → gt = true) →
-          Inv c ar aq (finishPhase c (drhFail s f rq pt gt gg)) := by
-        intro rq pt gt gg hoff hgl
-        have hb1 : Base c ar aq (drhFail s f rq pt gt gg) := by
+          Inv c ar aq (finishPhase c (drhFail s f rq pt gt gg go)) := by
+        intro rq pt gt gg go hoff hgl
+        have hb1 : Base c ar aq (drhFail s f rq pt gt gg go) := by
           unfold drhFail
           obtain ⟨k1, k2, k4, k9, k10, k11, k12, k13, k14, k20, k21, k22, k31⟩ := hb
           refine ⟨?_, ?_, ?_, k9, ?_, ?_, k12, ?_, ?_, ?_, hoff, ?_, k31⟩
@@ -157,27 +158,27 @@ theorem inv_work_drh (c : Cfg) (ar aq : Nat) (s : S) (h : Inv c ar aq s) (hrun :
           refine ⟨hup, hrs, by simp [drhFail, liveCount, liveCounted], by simp [drhFail, hp], ?_⟩
           intro hq; left; exact hgl hq how
         · intro hh; simp [drhFail] at hh
-      have e : upAppendHeaders c s eos = drhFail s f s.reqSent s.perTry s.global s.gtGen := by
+      have e : upAppendHeaders c s eos = drhFail s f s.reqSent s.perTry s.global s.gtGen s.gtObj := by
         simp [upAppendHeaders, hpdn, hout, upOnResetStream, hsr, hur, hst, drhFail]
       unfold receiveHeaders
       rw [e]
       cases eos
       · simp only [Bool.false_eq_true, if_false]
-        exact key s.reqSent s.perTry s.global s.gtGen (fun ho => h21 ho) (fun hq => by rw [hrq] at hq; cases hq)
+        exact key s.reqSent s.perTry s.global s.gtGen s.gtObj (fun ho => h21 ho) (fun hq => by rw [hrq] at hq; cases hq)
       · simp only [if_true]
-        have e2 : onUpstreamRequestSent c (drhFail s f s.reqSent s.perTry s.global s.gtGen) =
+        have e2 : onUpstreamRequestSent c (drhFail s f s.reqSent s.perTry s.global s.gtGen s.gtObj) =
             drhFail s f true (s.perTry || (s.up.isSome && !c.oneway && c.tryTimeout)) (s.global || (s.up.isSome && !c.oneway))
-              (if (s.up.isSome && !c.oneway) = true then s.gtGen + 1 else s.gtGen) := by
+              (if (s.up.isSome && !c.oneway) = true then s.gtGen + 1 else s.gtGen) (s.gtObj || (s.up.isSome && !c.oneway)) := by
           simp [onUpstreamRequestSent, drhFail]
         rw [e2]
-        exact key true _ _ _ (fun ho => by simp [ho, hpt, hgt]) (fun _ ho => by simp [ho, hup])
+        exact key true _ _ _ _ (fun ho => by simp [ho, hpt, hgt]) (fun _ ho => by simp [ho, hup])
     | none =>
       -- admitted: the client stream of attempt 0 exists now
-      have key : ∀ (rq pt gt : Bool) (gg : Nat), (c.oneway = true → pt = false ∧ gt = false) →
+      have key : ∀ (rq pt gt : Bool) (gg : Nat) (go : Bool), (c.oneway = true → pt = false ∧ gt = false) →
           (rq = true → c.oneway = false → gt = true) → (rq = eos) →
-          Inv c ar aq (finishPhase c (drhOk c s eos rq pt gt gg)) := by
-        intro rq pt gt gg hoff hgl hrqe
-        have hb1 : Base c ar aq (drhOk c s eos rq pt gt gg) := by
+          Inv c ar aq (finishPhase c (drhOk c s eos rq pt gt gg go)) := by
+        intro rq pt gt gg go hoff hgl hrqe
+        have hb1 : Base c ar aq (drhOk c s eos rq pt gt gg go) := by
           unfold drhOk
           obtain ⟨k1, k2, k4, k9, k10, k11, k12, k13, k14, k20, k21, k22, k31⟩ := hb
           refine ⟨?_, ?_, ?_, k9, ?_, ?_, k12, ?_, ?_, ?_, hoff, ?_, ?_⟩
@@ -207,7 +208,7 @@ theorem inv_work_drh (c : Cfg) (ar aq : Nat) (s : S) (h : Inv c ar aq s) (hrun :
         · intro hh; simp [drhOk, hur] at hh
         · intro _ hdr'
           have hdr' : s.downReset = false := hdr'
-          have h3' : K3 (drhOk c s eos rq pt gt gg) := by simpa [K3, drhOk, snd_append, snd_append2, sndStep] using h.k3
+          have h3' : K3 (drhOk c s eos rq pt gt gg go) := by simpa [K3, drhOk, snd_append, snd_append2, sndStep] using h.k3
           unfold drhOk at hb1 h3' ⊢
           obtain ⟨k0, k1, k2, k3, k4, k5, k6, k7, k8, k9, k10, k11, k12, k13, k14, k15, k16, k17, k18, k19, k20, k21, k22, k23, k24, k25, k26, k27, k28, k29, k30, k31, k32, k33⟩ := h
           refine ⟨k0, hb1.k1, hb1.k2, h3', hb1.k4, k5, k6, k7_intro hsr hdir, ?_, k9, hb1.k10, hb1.k11, k12, hb1.k13, hb1.k14, ?_, ?_, ?_, ?_, ?_, hb1.k20, hoff, hb1.k22, ?_, ?_, ?_, ?_, ?_, ?_, ?_, ?_, hb1.k31, ?_, (fun hh => absurd hh (by simp [hcl]))⟩
@@ -240,19 +241,19 @@ theorem inv_work_drh (c : Cfg) (ar aq : Nat) (s : S) (h : Inv c ar aq s) (hrun :
             · intro hh; simp [hp, Phase.next] at hh
           · intro _ hh; simp [hp, Phase.next] at hh
           · intro _ _; simp [hp, Phase.next, upPhase]
-      have e : upAppendHeaders c s eos = drhOk c s eos s.reqSent s.perTry s.global s.gtGen := by
+      have e : upAppendHeaders c s eos = drhOk c s eos s.reqSent s.perTry s.global s.gtGen s.gtObj := by
         simp [upAppendHeaders, hpdn, hout, hst, drhOk]
       unfold receiveHeaders
       rw [e]
       cases eos
       · simp only [Bool.false_eq_true, if_false]
-        exact key s.reqSent s.perTry s.global s.gtGen (fun ho => h21 ho) (fun hq => by rw [hrq] at hq; cases hq) hrq
+        exact key s.reqSent s.perTry s.global s.gtGen s.gtObj (fun ho => h21 ho) (fun hq => by rw [hrq] at hq; cases hq) hrq
       · simp only [if_true]
-        have e2 : onUpstreamRequestSent c (drhOk c s true s.reqSent s.perTry s.global s.gtGen) =
+        have e2 : onUpstreamRequestSent c (drhOk c s true s.reqSent s.perTry s.global s.gtGen s.gtObj) =
             drhOk c s true true (s.perTry || (true && !c.oneway && c.tryTimeout)) (s.global || (true && !c.oneway))
-              (if (true && !c.oneway) = true then s.gtGen + 1 else s.gtGen) := by
+              (if (true && !c.oneway) = true then s.gtGen + 1 else s.gtGen) (s.gtObj || (true && !c.oneway)) := by
           simp [onUpstreamRequestSent, drhOk]
         rw [e2]
-        exact key true _ _ _ (fun ho => by simp [ho, hpt, hgt]) (fun _ ho => by simp [ho]) rfl
+        exact key true _ _ _ _ (fun ho => by simp [ho, hpt, hgt]) (fun _ ho => by simp [ho]) rfl
 
 end MosnVerif.Model.Downstream
